@@ -106,25 +106,53 @@ def gen_concurrent(engine: str):
     return gen
 
 
+_SUPERSEDED = ("completed-write-not-visible", "stale-value-returned", "deleted-key-returned")
+
+
+def _oracle_name(clause: str) -> str:
+    """Mechanism-key oracle: the three ways of returning a superseded write (absent / older value / value of a
+    deleted key) are one clause of the statement and one mechanism; the sub-clause stays in the detail text."""
+    scan = clause.startswith("scan-")
+    base = clause[5:] if scan else clause
+    if base in _SUPERSEDED:
+        base = "superseded-write-returned"
+    return ("scan-" if scan else "") + base
+
+
 def _windows(times: list[int], width_ns: int) -> list[tuple[int, int]]:
     return [(t - width_ns, t) for t in times]
 
 
-def _lsm_shape(read: dict, flush_w, comp_w) -> str:
+def _lsm_shape(read: dict, adm: list[dict], flush_w, comp_w) -> str:
+    """Structural precondition of an inadmissible LSM read, most specific first.
+
+    1. flush window: the read began while a flush was in progress AND some admissible write can have been
+       in the memtable being flushed (its interval meets (start of previous flush, start of this flush]);
+    2. two compactions overlapped in time before the read ended (their effect is persistent, so it is tested
+       before the transient one);
+    3. a compaction completed strictly inside the read (level lists change under a suspended reader);
+    4. none of these.
+    """
     t0, t1 = read["t0"], read["t1"]
-    if any(a <= t0 < b for a, b in flush_w):
-        return "read-began-inside-flush-window"
-    if any(a <= t1 and t0 <= b for a, b in comp_w):
-        return "read-overlaps-compaction"
-    done = sorted(w for w in comp_w if w[1] <= t0)
+    fw = sorted(flush_w)
+    for i, (a, b) in enumerate(fw):
+        if a <= t0 < b:
+            prev = fw[i - 1][0] if i else float("-inf")
+            for w in adm:
+                w1 = float("inf") if w["t1"] is None else w["t1"]
+                if w["t0"] <= a and w1 > prev:
+                    return "read-began-inside-flush-window"
+    done = sorted(w for w in comp_w if w[1] <= t1)
     for i in range(len(done) - 1):
         if done[i + 1][0] < done[i][1]:
             return "read-after-overlapping-compactions"
+    if any(t0 < b <= t1 for _, b in comp_w):
+        return "compaction-completed-during-read"
     return "no-flush-or-compaction-in-flight"
 
 
 def _btree_shape(read: dict, splits: list[int]) -> str:
-    if any(read["t0"] < t <= read["t1"] for t in splits):
+    if any(read["t0"] <= t <= read["t1"] for t in splits):
         return "read-overlaps-node-split"
     return "no-split-in-flight"
 
@@ -142,9 +170,9 @@ def check_history(case: dict, res: Result, store, hist, sampler):
         flush_w = _windows(sampler.flushes, width)
         comp_w = _windows(sampler.compactions, width)
 
-    def shape_of(r):
+    def shape_of(r, adm=()):
         if engine == "lsm":
-            return _lsm_shape(r, flush_w, comp_w)
+            return _lsm_shape(r, list(adm), flush_w, comp_w)
         if engine == "btree":
             return _btree_shape(r, sampler.splits)
         return "plain"
@@ -170,10 +198,10 @@ def check_history(case: dict, res: Result, store, hist, sampler):
             clause = classify_read(r["res"], adm, ws, r)
             if clause and not tolerated_fifo(clause, r):
                 res.add(
-                    clause,
+                    _oracle_name(clause),
                     comp,
-                    shape_of(r),
-                    f"get({r['key']!r}) by client {r['c']} op {r['i']} over [{r['t0']},{r['t1']}]ns returned "
+                    shape_of(r, adm),
+                    f"{clause}: get({r['key']!r}) by client {r['c']} op {r['i']} over [{r['t0']},{r['t1']}]ns returned "
                     f"{r['res']!r}; admissible {[w['val'] for w in adm]}",
                     {"read": r, "writes_to_key": ws[-8:], "flushes": sampler.flushes[-6:], "compactions": sampler.compactions[-6:]},
                 )
@@ -183,10 +211,10 @@ def check_history(case: dict, res: Result, store, hist, sampler):
                 if tolerated_fifo(clause, r):
                     continue
                 res.add(
-                    clause,
+                    _oracle_name(clause),
                     comp,
-                    shape_of(r),
-                    f"scan[{r['start']!r},{r['end']!r}) by client {r['c']} op {r['i']} over [{r['t0']},{r['t1']}]ns, key {key!r}: {detail}",
+                    shape_of(r, admissible(r, wbk.get(key, [])) if key else ()),
+                    f"{clause}: scan[{r['start']!r},{r['end']!r}) by client {r['c']} op {r['i']} over [{r['t0']},{r['t1']}]ns, key {key!r}: {detail}",
                     {"read": r, "writes_to_key": wbk.get(key, [])[-8:] if key else None},
                 )
         if r["op"] in ("get", "scan"):
@@ -251,7 +279,7 @@ def shrink_ops(case: dict, still_fails) -> dict:
             c2["clients"].append({"start": cl["start"], "ops": ops})
         return c2
 
-    kept = ddmin(flat, lambda k: still_fails(build(k)), max_tests=150)
+    kept = ddmin(flat, lambda k: still_fails(build(k)), max_tests=80)
     return build(kept)
 
 
@@ -312,7 +340,7 @@ def run_sequential(case: dict) -> Result:
                 clause = "completed-write-not-visible" if r["res"] is ABSENT else (
                     "deleted-key-returned" if exp is ABSENT else "stale-value-returned"
                 )
-                res.add(clause, comp, f"sequential-{api}", f"op {r['i']} get({r['key']!r}) returned {r['res']!r}, dict says {exp!r}", {"read": r})
+                res.add(_oracle_name(clause), comp, f"sequential-{api}", f"{clause}: op {r['i']} get({r['key']!r}) returned {r['res']!r}, dict says {exp!r}", {"read": r})
         elif r["op"] == "scan":
             res.count("scans_checked")
             exp = [[k, v] for k, v in sorted(model.items()) if r["start"] <= k < r["end"]]
@@ -328,11 +356,12 @@ def run_sequential(case: dict) -> Result:
         got = store.get_sync(k)
         exp = model.get(k, ABSENT)
         if got != exp and not (fifo and got is ABSENT and sampler.compactions):
+            sub = "completed-write-not-visible" if got is ABSENT else ("deleted-key-returned" if exp is ABSENT else "stale-value-returned")
             res.add(
-                "completed-write-not-visible" if got is ABSENT else ("deleted-key-returned" if exp is ABSENT else "stale-value-returned"),
+                _oracle_name(sub),
                 comp,
                 "sequential-final-sweep",
-                f"final get_sync({k!r}) returned {got!r}, dict says {exp!r}",
+                f"{sub}: final get_sync({k!r}) returned {got!r}, dict says {exp!r}",
             )
     res.count("ops_recorded", len(hist.recs))
     if case["store"]["engine"] == "lsm":
@@ -358,6 +387,9 @@ FAMILIES = {
     "sequential": Family("sequential", gen_sequential, run_sequential, shrink=shrink_ops),
     "txn": Family("txn", gen_txn, run_txn),
 }
+# cases cost 1-5 ms but a fresh worker pays ~3 s to import the library: few, large shards
+for _f in FAMILIES.values():
+    _f.shard_size = 400
 
 BUDGET = {
     "quick": {"lsm_size_tiered": 300, "lsm_leveled": 300, "lsm_fifo": 200, "btree": 250, "kv": 150, "sequential": 300, "txn": 600},
